@@ -2,7 +2,9 @@
 # usage: run.sh <property id> quick|thorough
 # Rebuilds the harness against /repo's current working tree (build tag verif) and runs one check.
 export GOFLAGS=-mod=mod GOPROXY=off GOSUMDB=off GOTOOLCHAIN=local
-cd /verif/harness || exit 2
+VERIF_DIR=$(cd "$(dirname "$0")" && pwd)
+export VERIF_DIR
+cd "$VERIF_DIR/harness" || exit 2
 cp /repo/go.sum go.sum || exit 2
 BIN=$(mktemp -d /tmp/vcheck-bin.XXXXXX) || exit 2
 trap 'rm -rf "$BIN"' EXIT INT TERM
